@@ -203,6 +203,13 @@ impl Swarm {
             let answer = FEv::Feed(i, refwire::encode(&Msg::Piece(r.0, r.1, self.piece_bytes(w, &r))));
             return vec![FEv::Batch(if &sym[..2] == "xa" { vec![answer, FEv::Close(j)] } else { vec![FEv::Close(j), answer] })];
         }
+        if sym.starts_with("fw") {
+            let k: usize = sym[2..].parse().unwrap();
+            return match rdest::verif::fs_pending().get(k) {
+                Some(path) => vec![FEv::FsRelease(path.clone())],
+                None => vec![],
+            };
+        }
         let i: usize = sym[2..].parse().unwrap();
         let t = &w.t;
         let p = &mon.p[i];
@@ -248,6 +255,9 @@ impl Swarm {
             let j: usize = sym[3..4].parse().unwrap();
             mon.p[i].outstanding.remove(0);
             mon.p[j].closes += 1;
+            return;
+        }
+        if sym.starts_with("fw") {
             return;
         }
         let i: usize = sym[2..].parse().unwrap();
@@ -300,6 +310,11 @@ impl Swarm {
     /// "Without any surviving connection hanging": a connection task must never wait for a block
     /// that its honest peer has already delivered (it would sit there until the keep-alive limit).
     fn hanging(&self, w: &FullWorld, mon: &Mon) -> Option<(&'static str, String)> {
+        // these invariants describe quiescent connection tasks; a task whose piece-file write is
+        // being held (fs seam) is in the middle of handling a block
+        if !rdest::verif::fs_pending().is_empty() {
+            return None;
+        }
         for i in 0..self.owners.len() {
             if !self.live(w, i) {
                 continue;
@@ -308,7 +323,9 @@ impl Swarm {
             // something: otherwise the connection just sits there until the keep-alive limit ends it
             // (a reconnect may then rescue the download, which is why the liveness obligation alone
             // does not see this)
-            if !self.is_inert(i) && mon.p[i].hs && mon.p[i].unchoked && mon.p[i].outstanding.is_empty() {
+            // (not while a piece-file write of some connection task is being held: that task has not
+            // reported its completion yet, so it cannot have been asked for the next piece)
+            if !self.is_inert(i) && mon.p[i].hs && mon.p[i].unchoked && mon.p[i].outstanding.is_empty() && rdest::verif::fs_pending().is_empty() {
                 if let Some(snap) = w.snap() {
                     let owned: Vec<usize> = (0..self.owners[i].len()).filter(|k| self.owners[i][*k]).collect();
                     let announced: Vec<usize> = if self.by_have[i] { owned.iter().cloned().take(mon.p[i].announced).collect() } else if mon.p[i].bitfield { owned.clone() } else { vec![] };
@@ -400,6 +417,10 @@ impl Sys for Swarm {
                     out.push(format!("rl{}", i));
                 }
             }
+            // a re-write of an existing piece file is held after its truncation: let it finish
+            for (k, _) in rdest::verif::fs_pending().iter().enumerate() {
+                out.push(format!("fw{}", k));
+            }
         }
         if self.races {
             for i in 0..self.owners.len() {
@@ -480,7 +501,9 @@ impl Sys for Swarm {
             if let Some(snap) = w.snap() {
                 for (i, st) in snap.statuses.iter().enumerate() {
                     let have = *st == Status::Have;
-                    if have && !w.has_piece_file(i) {
+                    // (debugging aid: RDV_SKIP_STORED=1 lets a replay run on past this invariant, to see
+                    // what the window leads to)
+                    if have && !w.has_piece_file(i) && std::env::var("RDV_SKIP_STORED").is_err() {
                         return Some(("piece-counted-as-done-without-stored-data", format!("piece {} is Have but no verified piece file exists; {}", i, w.session_key())));
                     }
                     if mon.had.len() <= i {
@@ -516,6 +539,9 @@ impl Sys for Swarm {
     }
     fn key(&self, w: &FullWorld, mon: &Mon) -> String {
         let mut k = w.session_key();
+        if self.gated {
+            k.push_str(&format!(" fs-held={:?}", rdest::verif::fs_pending()));
+        }
         for i in 0..self.owners.len() {
             let p = &mon.p[i];
             k.push_str(&format!(" [{} pend={:?} live={} gen={} hs={} bf={} an={} un={} ck={} in={} out={:?} cl={}", i, if self.gated { w.pending(i) } else { vec![] }, self.live(w, i), p.generation.min(3), p.hs, p.bitfield, p.announced, p.unchoked, p.choke_used, p.interest, p.outstanding, p.closes));
@@ -562,6 +588,9 @@ impl Sys for Swarm {
             let mut next: Option<String> = None;
             if self.gated {
                 next = (0..self.owners.len()).find(|i| self.live(w, *i) && !w.pending(*i).is_empty()).map(|i| format!("rl{}", i));
+                if !rdest::verif::fs_pending().is_empty() {
+                    next = Some("fw0".to_string()); // a started write finishes
+                }
             }
             for i in 0..self.owners.len() {
                 if next.is_some() {
@@ -922,6 +951,200 @@ fn tcp_transcript(s: &Swarm, dir: &PathBuf) -> Result<(Vec<String>, Vec<(PathBuf
     Ok((msgs, outs))
 }
 
+/// A seeder that dials in: the real Session (unhooked accept path: listener, spawn_peer_listener,
+/// run_outgoing on the accepted socket) is connected to over loopback TCP by an honest seeder in
+/// the harness; the tracker lists nobody. Returns what the seeder received and the output files.
+/// Err(("violation class" | "MACHINERY", text)).
+fn dial_in_transcript(s: &Swarm, dir: &PathBuf) -> Result<(Vec<String>, Vec<(PathBuf, Vec<u8>)>), (&'static str, String)> {
+    use tokio::io::{AsyncReadExt, AsyncWriteExt};
+    core::wipe_dir(dir);
+    rdest::verif::clear_snapshots();
+    rdest::verif::set_choices(vec![]);
+    rdest::verif::set_net(None);
+    rdest::verif::publish_listen_addr(None);
+    let t = s.torrent();
+    let rt = tokio::runtime::Builder::new_current_thread().enable_all().build().map_err(|e| ("MACHINERY", e.to_string()))?;
+    let local = tokio::task::LocalSet::new();
+    let owners = s.owners[0].clone();
+    let res: Result<Vec<String>, (&'static str, String)> = local.block_on(&rt, async {
+        rdest::verif::set_http(Some(Box::new(move |_req: &reqwest::Request| crate::httpfake::respond(200, crate::fullworld::tracker_body(&[])))));
+        let mut session = rdest::Session::new(t.meta.clone(), *crate::world::OWN_ID);
+        let session_task = tokio::task::spawn_local(async move { session.verif_run().await });
+        // wait for the listener
+        let mut addr = None;
+        for _ in 0..400 {
+            tokio::time::sleep(std::time::Duration::from_millis(5)).await;
+            if let Some(a) = rdest::verif::listen_addr() {
+                addr = Some(a);
+                break;
+            }
+        }
+        let addr = addr.ok_or(("MACHINERY", "the session never published its listening address".to_string()))?;
+        let mut sock = tokio::net::TcpStream::connect(("127.0.0.1", addr.port())).await.map_err(|e| ("MACHINERY", format!("cannot dial the client: {}", e)))?;
+        sock.set_nodelay(true).ok();
+        let mut received: Vec<u8> = vec![];
+        let mut buf = vec![0u8; 65536];
+        // an incoming connection gets no reply before its handshake
+        if let Ok(Ok(n)) = tokio::time::timeout(std::time::Duration::from_millis(300), sock.read(&mut buf)).await {
+            return Err(("dial-in-seeder-got-bytes-before-its-handshake", format!("{} bytes arrived (or the connection was closed) before the seeder sent anything", n)));
+        }
+        let my_id = *b"-HS0001-dialinseeder";
+        let mut to_send: Vec<Vec<u8>> = vec![refwire::encode(&refwire::handshake(t.meta.info_hash(), &my_id)), refwire::encode(&Msg::Bitfield(refwire::bitfield_bytes(&owners))), refwire::encode(&Msg::Unchoke)];
+        to_send.reverse();
+        let mut decoded = 0usize;
+        let mut msgs: Vec<Msg> = vec![];
+        let mut outstanding: Vec<(u32, u32, u32)> = vec![];
+        let mut closed = false;
+        let started = std::time::Instant::now();
+        loop {
+            if started.elapsed() > std::time::Duration::from_secs(30) {
+                return Err(("dial-in-seeder-download-stalls", format!("30 s without completion; the client wrote {:?}", msgs.iter().map(|m| m.short()).collect::<Vec<_>>())));
+            }
+            loop {
+                match tokio::time::timeout(std::time::Duration::from_millis(60), sock.read(&mut buf)).await {
+                    Ok(Ok(0)) | Ok(Err(_)) => {
+                        closed = true;
+                        break;
+                    }
+                    Ok(Ok(n)) => received.extend_from_slice(&buf[..n]),
+                    Err(_) => break,
+                }
+            }
+            let (all, _, err) = refwire::decode_stream(&received);
+            if let Some(e) = err {
+                return Err(("dial-in-seeder-got-undecodable-bytes", e.to_string()));
+            }
+            for m in &all[decoded..] {
+                match m {
+                    Msg::Request(a, b, l) => outstanding.push((*a, *b, *l)),
+                    Msg::Cancel(a, b, l) => outstanding.retain(|r| r != &(*a, *b, *l)),
+                    _ => {}
+                }
+                msgs.push(m.clone());
+            }
+            decoded = all.len();
+            if closed {
+                break;
+            }
+            let next = if let Some(b) = to_send.pop() {
+                Some(b)
+            } else if !outstanding.is_empty() {
+                let r = outstanding.remove(0);
+                Some(refwire::encode(&Msg::Piece(r.0, r.1, t.pieces[r.0 as usize][r.1 as usize..(r.1 + r.2) as usize].to_vec())))
+            } else {
+                None
+            };
+            match next {
+                Some(b) => {
+                    if sock.write_all(&b).await.is_err() {
+                        closed = true;
+                        break;
+                    }
+                }
+                None => match tokio::time::timeout(std::time::Duration::from_secs(8), sock.read(&mut buf)).await {
+                    Ok(Ok(0)) | Ok(Err(_)) => break,
+                    Ok(Ok(n)) => received.extend_from_slice(&buf[..n]),
+                    Err(_) => return Err(("dial-in-seeder-download-stalls", format!("the client neither closed the connection nor asked for anything for 8 s; it wrote {:?}", msgs.iter().map(|m| m.short()).collect::<Vec<_>>()))),
+                },
+            }
+        }
+        let _ = closed;
+        tokio::time::sleep(std::time::Duration::from_millis(300)).await;
+        session_task.abort();
+        Ok(msgs.iter().map(|m| m.short()).collect())
+    });
+    rdest::verif::set_http(None);
+    let msgs = res?;
+    let outs = t.expected_outputs().into_iter().map(|(rel, _)| { let d = std::fs::read(dir.join(&rel)).unwrap_or_default(); (rel, d) }).collect();
+    Ok((msgs, outs))
+}
+
+/// Dial the real session over loopback (tracker lists nobody), wait 300 ms, send `chunks`, then read
+/// until the client is quiet for 400 ms or closes. Returns (bytes received before anything was
+/// sent, bytes received afterwards, connection closed by the client).
+pub fn dial_in_exchange(t: &crate::fixture::Torrent, dir: &PathBuf, chunks: Vec<Vec<u8>>) -> Result<(Vec<u8>, Vec<u8>, bool), String> {
+    use tokio::io::{AsyncReadExt, AsyncWriteExt};
+    core::wipe_dir(dir);
+    rdest::verif::clear_snapshots();
+    rdest::verif::set_choices(vec![]);
+    rdest::verif::set_net(None);
+    rdest::verif::publish_listen_addr(None);
+    let rt = tokio::runtime::Builder::new_current_thread().enable_all().build().map_err(|e| e.to_string())?;
+    let local = tokio::task::LocalSet::new();
+    let meta = t.meta.clone();
+    let res = local.block_on(&rt, async {
+        rdest::verif::set_http(Some(Box::new(move |_req: &reqwest::Request| crate::httpfake::respond(200, crate::fullworld::tracker_body(&[])))));
+        let mut session = rdest::Session::new(meta, *crate::world::OWN_ID);
+        let session_task = tokio::task::spawn_local(async move { session.verif_run().await });
+        let mut addr = None;
+        for _ in 0..400 {
+            tokio::time::sleep(std::time::Duration::from_millis(5)).await;
+            if let Some(a) = rdest::verif::listen_addr() {
+                addr = Some(a);
+                break;
+            }
+        }
+        let addr = addr.ok_or("the session never published its listening address".to_string())?;
+        let mut sock = tokio::net::TcpStream::connect(("127.0.0.1", addr.port())).await.map_err(|e| format!("cannot dial the client: {}", e))?;
+        sock.set_nodelay(true).ok();
+        let mut buf = vec![0u8; 65536];
+        let mut before = vec![];
+        let mut after = vec![];
+        let mut closed = false;
+        match tokio::time::timeout(std::time::Duration::from_millis(300), sock.read(&mut buf)).await {
+            Ok(Ok(0)) | Ok(Err(_)) => closed = true,
+            Ok(Ok(n)) => before.extend_from_slice(&buf[..n]),
+            Err(_) => {}
+        }
+        for c in chunks {
+            if closed || sock.write_all(&c).await.is_err() {
+                closed = true;
+                break;
+            }
+            tokio::time::sleep(std::time::Duration::from_millis(30)).await;
+        }
+        while !closed {
+            match tokio::time::timeout(std::time::Duration::from_millis(400), sock.read(&mut buf)).await {
+                Ok(Ok(0)) | Ok(Err(_)) => closed = true,
+                Ok(Ok(n)) => after.extend_from_slice(&buf[..n]),
+                Err(_) => break,
+            }
+        }
+        session_task.abort();
+        Ok::<_, String>((before, after, closed))
+    });
+    rdest::verif::set_http(None);
+    res
+}
+
+/// Subprocess body (`rdv --probe viewrun <scenario>`; stdout is discarded by the parent): the
+/// scenario's default fair continuation from the initial state, with the session started through
+/// its public entry point `Session::run()` — progress view, its bounded log channel and its 100 ms
+/// animation timer included. Exit 0: completed with identical files; 3: not (reason on stderr).
+pub fn viewrun_main(args: &[String]) -> i32 {
+    let name = args.get(0).cloned().unwrap_or_default();
+    crate::fullworld::WITH_VIEW.store(true, std::sync::atomic::Ordering::Relaxed);
+    core::set_quiet_panics(true);
+    let dir = core::private_cwd("c02", "viewrun");
+    for (s, _) in scenarios(false).into_iter().chain(unseamed_extra()) {
+        if s.name() == name {
+            let mut r = explore::replay(&s, &dir, &[], false);
+            if r.violation.is_none() {
+                r.violation = explore::Sys::final_check(&s, &mut r.world, &mut r.mon, false);
+            }
+            return match r.violation {
+                None => 0,
+                Some((class, why)) => {
+                    eprintln!("{} {}", class, why);
+                    3
+                }
+            };
+        }
+    }
+    eprintln!("unknown scenario {}", name);
+    2
+}
+
 fn unseamed_part(ctx: &Ctx) -> (u64, Vec<Value>) {
     let dir = core::private_cwd("c02", "unseamed");
     core::set_quiet_panics(true);
@@ -940,6 +1163,42 @@ fn unseamed_part(ctx: &Ctx) -> (u64, Vec<Value>) {
                 rows.push(json!({"scenario": s.name(), "messages_received_by_the_peer": mb.len(), "identical_to_in_memory_run": ma == mb, "outputs_identical": ob == want_outputs}));
             }
             (a, b) => ctx.machinery_error(format!("unseamed replay of {} could not run: {:?} / {:?}", s.name(), a.err(), b.err())),
+        }
+    }
+    // the public entry point Session::run() (progress view included), in a subprocess whose stdout
+    // is discarded: the fair continuation of each scenario from its initial state must complete
+    let exe = std::env::current_exe().expect("current_exe");
+    for (s, _) in scenarios(false).into_iter().chain(unseamed_extra()) {
+        if s.gated || s.inert.iter().any(|x| *x) {
+            continue;
+        }
+        n += 1;
+        let out = std::process::Command::new(&exe).args(["--probe", "viewrun", &s.name()]).stdout(std::process::Stdio::null()).output();
+        match out {
+            Ok(o) if o.status.code() == Some(0) => rows.push(json!({"scenario": format!("{} (Session::run with progress view)", s.name()), "completed": true})),
+            Ok(o) if o.status.code() == Some(3) => {
+                let why = String::from_utf8_lossy(&o.stderr).lines().last().unwrap_or("").to_string();
+                ctx.violation("download-through-the-public-entry-point-fails", format!("[{}] started with Session::run() (progress view on) the fair continuation does not complete: {}", s.name(), &why[..why.len().min(400)]), json!({"scenario": s.name(), "kind": "viewrun"}));
+            }
+            other => ctx.machinery_error(format!("view-run subprocess for {} failed: {:?}", s.name(), other.map(|o| (o.status, String::from_utf8_lossy(&o.stderr).chars().take(300).collect::<String>())))),
+        }
+    }
+    // the seeder dials in (accept path of the real session, never reachable over the connect seam)
+    for (s, _) in scenarios(false).into_iter().filter(|(s, _)| s.owners.len() == 1).chain(unseamed_extra()) {
+        n += 1;
+        let want_outputs: Vec<(PathBuf, Vec<u8>)> = s.torrent().expected_outputs();
+        match dial_in_transcript(&s, &dir) {
+            Ok((msgs, outs)) => {
+                let hs_first = msgs.first().map(|m| m.starts_with("Handshake")).unwrap_or(false);
+                if !hs_first {
+                    ctx.violation("dial-in-seeder-first-message-not-handshake", format!("[{}] the client's messages to a seeder that dialled in: {:?}", s.name(), msgs), json!({"scenario": s.name(), "kind": "dial-in"}));
+                } else if outs != want_outputs {
+                    ctx.violation("dial-in-seeder-download-incomplete", format!("[{}] an honest seeder dialled in, handshook, sent its bitfield, unchoked and answered every request, but the output files are not the torrent's content; the client wrote {:?}", s.name(), msgs), json!({"scenario": s.name(), "kind": "dial-in"}));
+                }
+                rows.push(json!({"scenario": format!("{} (seeder dials in)", s.name()), "messages_received_by_the_peer": msgs.len(), "outputs_identical": outs == want_outputs}));
+            }
+            Err(("MACHINERY", e)) => ctx.machinery_error(format!("dial-in replay of {} could not run: {}", s.name(), e)),
+            Err((class, e)) => ctx.violation(class, format!("[{}] {}", s.name(), e), json!({"scenario": s.name(), "kind": "dial-in"})),
         }
     }
     (n, rows)
@@ -972,14 +1231,38 @@ pub fn run(ctx: &Ctx) -> Outcome {
     o.set("unseamed_replays", json!(unseamed));
     o.set("unseamed_replay_details", Value::Array(unseamed_rows));
     o.set("scenarios", Value::Array(per));
-    o.set("rule", json!("full-session world; honest peer i: hs handshake, bf bitfield (first message) or hv next Have, un unchoke, ao/an correct answer to the oldest/newest outstanding request, as the same answer split into two reads, hb handshake+bitfield in one read, ck one choke (then un again), in/ni interest, cl disconnect (only peers whose pieces have another owner; they are offered again by the next announce), xa/xc an answer of one peer and the disconnect of another arriving before the client runs (both orders), rl release of one held-back manager broadcast to a connection task (gated scenario), tick = 10 s of virtual time; inert peers (scenarios with > 11 tracker entries) only keep their connection alive and may leave; BFS over all orders to the stated depth; in every state: no task panicked, session alive, Have implies a stored verified piece, an owned piece stays owned, no connection task waits for a block its honest peer already delivered, no peer that unchokes us and has announced a piece nobody is fetching is left without a request; every state that is not expanded further must reach 'all pieces owned, extractor ran, every output file byte-identical, event loop still iterating' under the fair default continuation (each honest peer does its next scripted action, otherwise time passes up to a 900 s horizon)."));
+    o.set("rule", json!("full-session world; honest peer i: hs handshake, bf bitfield (first message) or hv next Have, un unchoke, ao/an correct answer to the oldest/newest outstanding request, as the same answer split into two reads, hb handshake+bitfield in one read, ck one choke (then un again), in/ni interest, cl disconnect (only peers whose pieces have another owner; they are offered again by the next announce), xa/xc an answer of one peer and the disconnect of another arriving before the client runs (both orders), rl release of one held-back manager broadcast to a connection task, fw completion of a piece-file re-write that is held after its truncation (gated scenario; hook 11), tick = 10 s of virtual time; inert peers (scenarios with > 11 tracker entries) only keep their connection alive and may leave; BFS over all orders to the stated depth; in every state: no task panicked, session alive, Have implies a stored verified piece, an owned piece stays owned, no connection task waits for a block its honest peer already delivered, no peer that unchokes us and has announced a piece nobody is fetching is left without a request; every state that is not expanded further must reach 'all pieces owned, extractor ran, every output file byte-identical, event loop still iterating' under the fair default continuation (each honest peer does its next scripted action, otherwise time passes up to a 900 s horizon)."));
     o.assume("unseamed replays: the one-seeder downloads are repeated with the connect seam inactive — the real Session connects over loopback TCP (real clock) to an honest seeder in the harness; the sequence of messages that seeder receives and the extracted files must equal those of the in-memory run (a mismatch is a machinery error)");
-    o.assume("fairness: honest peers eventually unchoke, answer every valid request, and an interested peer eventually loses interest or leaves; only outgoing connections exist in this world (an incoming one needs a real socket, which cannot be mixed with the paused clock); every tie-break of the piece chooser is enumerated");
+    o.assume("fairness: honest peers eventually unchoke, answer every valid request, and an interested peer eventually loses interest or leaves; the explored world has outgoing connections only (an incoming one needs a real socket, which cannot be mixed with the paused clock); Session::run() itself (progress view, its bounded log channel and animation timer) is bound by the view-run replays: every ungated scenario's fair continuation from the initial state is run in a subprocess through the public entry point and must complete; the accept path is bound by the dial-in replays: for the one-seeder scenarios an honest seeder dials the real session over loopback TCP (real clock, tracker lists nobody): nothing may arrive before its handshake, the client's first message is its handshake, and the download must complete with identical files; every tie-break of the piece chooser is enumerated");
     o
 }
 
 pub fn replay(_ctx: &Ctx, r: &Value) -> i32 {
     let name = r["scenario"].as_str().unwrap();
+    if r["kind"] == "viewrun" {
+        let exe = std::env::current_exe().expect("current_exe");
+        let out = std::process::Command::new(&exe).args(["--probe", "viewrun", name]).stdout(std::process::Stdio::null()).output().expect("subprocess");
+        println!("view-run of {}: exit {:?}, stderr: {}", name, out.status.code(), String::from_utf8_lossy(&out.stderr));
+        return if out.status.code() == Some(0) { 0 } else { 1 };
+    }
+    if r["kind"] == "dial-in" {
+        let dir = core::private_cwd("c02", "replay");
+        for (s, _) in scenarios(false).into_iter().chain(unseamed_extra()) {
+            if s.name() == name {
+                let want: Vec<(PathBuf, Vec<u8>)> = s.torrent().expected_outputs();
+                return match dial_in_transcript(&s, &dir) {
+                    Ok((msgs, outs)) if outs == want && msgs.first().map(|m| m.starts_with("Handshake")).unwrap_or(false) => {
+                        println!("holds: the client wrote {:?}, outputs identical", msgs);
+                        0
+                    }
+                    other => {
+                        println!("VIOLATION property=C02 replay=<this file>\n  class=dial-in {:?}", other.map(|(m, o)| (m, o == want)));
+                        1
+                    }
+                };
+            }
+        }
+    }
     for thorough in [false, true] {
         for (s, _) in scenarios(thorough).into_iter().chain(storage_scenarios()).chain(reservation_scenarios()).chain(identity_scenarios()) {
             if s.name() == name {
